@@ -66,6 +66,20 @@ CLAIMED = {
              "pairs are outside the model.",
         note=COMMON_NOTE + "End-of-stream propagation is a rule of the pair model (performed by the session driver in the code).",
         design="§8 C05"),
+    "C08": dict(
+        engine="M4 Rpq",
+        technique="Lean 4 inductive invariant over a transition system at schedule-point granularity (any number of pipes, producers, "
+                  "consumers; every interleaving): exactly-one-token-iff-counted; tie: deterministic turnstile scheduler driving the "
+                  "real ReadyPipeQueue through cfg(rzmq_verif) schedule points in lock-step with the model",
+        text="Proof over the queue model: for every schedule the invariant holds (counter/channel consistency, reserved = queued + "
+             "pending, one token per pipe iff something is counted); hence no lost wake-up (a counted item implies its pipe is on the "
+             "ready list or a mid-operation task holds its token; a parked consumer's next grant proceeds), the ready list never "
+             "overflows so arm/re-arm never block, per-pipe FIFO and exactly-once. Also: WaitGroup::wait / wait_for_connection as "
+             "register-then-check never lose the wake-up (fixed in acd52f7; the check-then-register shape is a proved counterexample). "
+             "12 theorems. Partial: atomicity inside a step (fibre channels, atomics and their orderings) is assumed; deregistration "
+             "and close are covered by correspondence only.",
+        note=COMMON_NOTE + "Interleavings finer than the schedule points are not explored; the ready-list capacity >= #pipes precondition is the code's own.",
+        design="§8 C08"),
     "C12": dict(
         engine="M6 Routing",
         technique="Lean 4 refinement proof: the subscription trie refines the multiset of active subscriptions for every call history "
